@@ -19,7 +19,7 @@ fn overflow_contract<T: ?Sized>(a: &Arc<T>, clone_op: impl FnOnce()) {
     assert!(unsafe { !ABORTED });
     assert!(c <= LIMIT, "clone returned although the count had passed the limit");
     assert!(raw_count(a) == c.wrapping_add(1), "a successful clone adds exactly one");
-    kani::cover!(c == LIMIT - 1, "largest count that must still succeed");
+    kani::cover!(c == LIMIT, "largest count that must still succeed");
     kani::cover!(c == 1, "ordinary count");
 }
 
@@ -30,7 +30,7 @@ pub static mut START_COUNT: usize = 0;
 pub fn abort_stub_checked() -> ! {
     unsafe {
         // abort may only be reached once the count had reached the limit
-        assert!(START_COUNT >= LIMIT, "abort reached below the limit");
+        assert!(START_COUNT > LIMIT, "abort reached although the count had not passed the limit (isize::MAX itself must still succeed)");
         kani::cover!(START_COUNT == LIMIT + 1, "abort reached just above the limit");
         kani::cover!(START_COUNT == usize::MAX, "abort reached at usize::MAX");
     }
